@@ -103,6 +103,7 @@ Definition op_ok (n : nat) (o : op) : Prop :=
   | OBin _ d a b => (d < n)%nat /\ opnd_ok n a /\ opnd_ok n b
   | OShl d a k | OShr d a k => (d < n)%nat /\ opnd_ok n a /\ 0 <= k
   | OSetBit d k | OClrBit d k => (d < n)%nat /\ 0 <= k
+  | ODivisor d b => (d < n)%nat /\ (b < n)%nat
   | OInstall d s ws cap => (d < n)%nat /\ repr_ok_b w M (install_repr s ws cap 0) = true
   end.
 
@@ -288,6 +289,13 @@ Proof.
     apply safe_bind. eapply (wp_clear_bit w M M_big x n (blocks p1)); [| exact T1 | exact R1 |].
     + eapply Own_perm; [exact P1 | exact HO].
     + intros r m1 HO1 HR. apply (wp_store_out d (Done r) p1 (length pool)); auto; lia.
+  - (* ODivisor: the value moved into a ConstDivisor (Buffer -> Box<[Word]>), read back, the divisor dropped *)
+    destruct Hok as (Hd & Hb).
+    destruct (fetch w (ByVal b) pool) as [[s0 x] p1] eqn:E1.
+    destruct (fetch_spec (ByVal b) pool s0 x p1 Hb HI E1) as (L1 & I1 & T1 & P1 & R1).
+    apply safe_bind. eapply (wp_divisor_value w M M_big x (blocks p1)); [| exact T1 | exact R1 |].
+    + eapply Own_perm; [exact P1 | exact HO].
+    + intros o m1 Ho. apply wp_store_out; auto; lia.
   - (* OInstall *)
     destruct Hok as (Hd & Hk).
     apply safe_bind. eapply wp_install; [exact HO | exact Hk |]. intros r m1 HO1 HR Hr.
@@ -384,3 +392,13 @@ Proof.
   - vm_compute. reflexivity.
   - vm_compute. repeat split; reflexivity.
 Qed.
+
+(** the ledger obligation of into_boxed_slice is not vacuous: the box of a 3-word value whose block still has
+    its capacity of 5 words (a variant that skips the shrinking realloc for a "compact" buffer) is freed with
+    the wrong size - guard 11; the modelled code ends with an empty heap *)
+Example into_boxed_slice_ledger :
+  let b := mkbuf 1 [1; 2; 3] 5 in
+  let m := mkmem (upd (fun _ => None) 1 (Some 5)) 2 1 5 in
+  drop_box (Some 1, [1; 2; 3]) m = Err 11 /\
+  match (bx <- into_boxed_slice b ;; drop_box bx) m with Ok (_, m') => nlive m' = 0 /\ nwords m' = 0 | _ => False end.
+Proof. cbn zeta. split; vm_compute; [reflexivity | split; reflexivity]. Qed.
